@@ -54,6 +54,9 @@ Definition lex_case (cfg src : bytes) : option bytes :=
   | _ => None
   end.
 
+(* the program lexer (scanProgram) on src *)
+Definition lexprog_case (src : bytes) : option bytes := print_outcome (scan_program go_unicode src).
+
 (* ghost flags of the tokens and of the error, for the driver: one digit per
    token (0 none, 1 column, 2 line, 3 both), then the digit of the error *)
 Definition dev_digit (c l : bool) : N := 48 + (if c then 1 else 0) + (if l then 2 else 0).
